@@ -24,6 +24,13 @@ inductive CountItem where
   | distinctId    -- `COUNT(DISTINCT <id column>)`
 deriving DecidableEq, Repr
 
+/-- the guards of `getOne` -/
+inductive OneGuard where
+  | empty               -- `if not results:`
+  | lenGt (n : Nat)     -- `if len(results) > n:`
+  | always              -- fall-through `return`
+deriving DecidableEq, Repr
+
 /-- what `getOne` does in one of its three cases -/
 inductive OneAction where
   | defaultOrNotFound    -- `raise SQLObjectNotFound` unless a default was given
